@@ -6,6 +6,8 @@ import (
 	"strings"
 
 	"golang.org/x/tools/go/ssa"
+
+	"govc/spec"
 )
 
 // StructuralObligations computes obligations decided by dataflow over SSA (no SMT):
@@ -43,6 +45,7 @@ func (e *Engine) StructuralObligations(want map[string]bool) ([]*Obligation, err
 			out = append(out, o)
 		}
 	}
+	out = append(out, e.globalReadOnlyObligations(want)...)
 	gs, err := e.guardObligations(want)
 	if err != nil {
 		return nil, err
@@ -429,4 +432,115 @@ func (e *Engine) contractOfFn(fn *ssa.Function) *Contract {
 		return e.Contracts[obj]
 	}
 	return nil
+}
+
+// globalReadOnlyObligations: every package-level variable mentioned by a globalinv clause is written only by
+// its package initialiser: no Store to it, and no map update / delete / element store through a value loaded
+// from it, anywhere else in the module.
+func (e *Engine) globalReadOnlyObligations(want map[string]bool) []*Obligation {
+	var out []*Obligation
+	seen := map[*ssa.Global]bool{}
+	for _, gi := range e.GlobalInvs {
+		if !hasProp(gi.Props, want) || gi.Pkg == nil {
+			continue
+		}
+		sp := e.Prog.Package(gi.Pkg)
+		for _, name := range identsOf(gi.E) {
+			g, ok := sp.Members[name].(*ssa.Global)
+			if !ok || seen[g] {
+				continue
+			}
+			seen[g] = true
+			okAll, msg := true, ""
+			for _, p2 := range e.SSAPkgs {
+				if !e.inModule(p2.Pkg) {
+					continue
+				}
+				for _, fn := range allFunctions(p2) {
+					if fn.Name() == "init" && fn.Pkg == sp && fn.Synthetic != "" {
+						continue
+					}
+					if w := writesGlobal(fn, g); w != "" {
+						okAll, msg = false, fmt.Sprintf("%s %s", funcDisplayName(fn), w)
+					}
+				}
+			}
+			out = append(out, &Obligation{Name: fmt.Sprintf("%s.%s#structural:written-only-by-init", sp.Pkg.Name(), g.Name()), Func: sp.Pkg.Name() + ".init", Kind: "structural",
+				Props: gi.Props, Structu: true, StructOK: okAll, StructMsg: msg, Src: "package-level variable " + g.Name() + " is never written after initialisation"})
+		}
+	}
+	return out
+}
+
+func identsOf(x spec.Expr) []string {
+	var out []string
+	var walk func(x spec.Expr)
+	walk = func(x spec.Expr) {
+		switch x := x.(type) {
+		case *spec.Ident:
+			out = append(out, x.Name)
+		case *spec.Call:
+			for _, a := range x.Args {
+				walk(a)
+			}
+		case *spec.Unary:
+			walk(x.X)
+		case *spec.Binary:
+			walk(x.X)
+			walk(x.Y)
+		case *spec.Index:
+			walk(x.X)
+			walk(x.I)
+		case *spec.Slice:
+			walk(x.X)
+		case *spec.Sel:
+			walk(x.X)
+		case *spec.Quant:
+			walk(x.Body)
+		}
+	}
+	walk(x)
+	return out
+}
+
+func loadsFrom(v ssa.Value, g *ssa.Global) bool {
+	switch v := v.(type) {
+	case *ssa.UnOp:
+		if v.X == ssa.Value(g) {
+			return true
+		}
+		return loadsFrom(v.X, g)
+	case *ssa.IndexAddr:
+		return loadsFrom(v.X, g)
+	case *ssa.FieldAddr:
+		return loadsFrom(v.X, g)
+	case *ssa.Slice:
+		return loadsFrom(v.X, g)
+	}
+	return false
+}
+
+func writesGlobal(fn *ssa.Function, g *ssa.Global) string {
+	for _, b := range fn.Blocks {
+		for _, in := range b.Instrs {
+			switch in := in.(type) {
+			case *ssa.Store:
+				if in.Addr == ssa.Value(g) {
+					return "stores to " + g.Name()
+				}
+				if loadsFrom(in.Addr, g) {
+					return "stores through " + g.Name()
+				}
+			case *ssa.MapUpdate:
+				if loadsFrom(in.Map, g) {
+					return "updates map " + g.Name()
+				}
+			case *ssa.Call:
+				if bi, ok := in.Call.Value.(*ssa.Builtin); ok && (bi.Name() == "delete" || bi.Name() == "copy" || bi.Name() == "clear") && len(in.Call.Args) > 0 && loadsFrom(in.Call.Args[0], g) {
+					return bi.Name() + " on " + g.Name()
+				}
+			}
+		}
+	}
+	return ""
 }
